@@ -65,9 +65,12 @@ def run(ck):
         # every third case (and the targeted ones) on a simulator object that has already simulated another batch
         used = i % 3 == 1 or i >= ncirc
         lc.WARM['on'] = used
-        res, err = sk.safe(lc.run_logicsim, c, 2, stim, reuse, strip, k)
+        # every fourth case through the callback copy of the 2-valued evaluation loop, with a callback that only observes
+        observer = (lambda line, values: None) if i % 4 == 2 else None
+        res, err = sk.safe(lc.run_logicsim, c, 2, stim, reuse, strip, k, observer)
         lc.WARM['on'] = False
-        desc = {'circuit': cg.describe(c), 'c_reuse': reuse, 'strip_forks': strip, 'cycles': k, 'stimulus': stim.tolist(), 'used_simulator': used}
+        ck.count(int(observer is not None), 'observer-callback rounds')
+        desc = {'circuit': cg.describe(c), 'c_reuse': reuse, 'strip_forks': strip, 'cycles': k, 'stimulus': stim.tolist(), 'used_simulator': used, 'observer_callback': observer is not None}
         ck.count(int(used), 'used-simulator rounds')
         ck.count(sims, f'sims={sims}')
         ck.count(0, f'cycles={k}')
@@ -162,7 +165,8 @@ def replay(rp):
     c = cg.from_description(inp['circuit'])
     stim = np.array(inp['stimulus'], dtype=np.uint8)
     lc.WARM['on'] = bool(inp.get('used_simulator'))
-    res, err = sk.safe(lc.run_logicsim, c, 2, stim, inp['c_reuse'], inp['strip_forks'], inp['cycles'])
+    res, err = sk.safe(lc.run_logicsim, c, 2, stim, inp['c_reuse'], inp['strip_forks'], inp['cycles'],
+                       (lambda line, values: None) if inp.get('observer_callback') else None)
     lc.WARM['on'] = False
     if err is not None:
         return True
